@@ -521,6 +521,16 @@ protected:
             bool                isCData);
 
     /**
+     * Whether a character of a CDATA section has to be written as a
+     * character reference outside of the section: it is not in the
+     * output encoding, or (XML output) a parser would not read it back
+     * from a literal.
+     * @param ch the character.
+     */
+    bool
+    isReferenceInCDATA(XalanDOMChar     ch) const;
+
+    /**
      * Write a number into the buffer as an entity
      * reference.
      * @param theNumber the number to write.
